@@ -63,7 +63,12 @@ class TGen(object):
                 [None, 0, 1, 2, 3, 7, 8, 10, 64, 255, 1000] +
                 ([('const', self.rng.choice(self.consts))] if self.consts else [])))
         nargs = self.rng.randrange(0, 4)
-        args = [self.gen(depth + 2) for _ in range(nargs)]
+        args = []
+        for _ in range(nargs):
+            a = self.gen(depth + 2)
+            while a == ('prim', 'void'):      # 'void' is not a parameter type
+                a = self.gen(depth + 2)
+            args.append(a)
         res = self.gen(depth + 2)
         return ('ptr', ('func', args, res, bool(nargs) and self.rng.random() < 0.2))
 
